@@ -68,6 +68,22 @@ def make_instances(rng, preds, text, n):
     preds = sorted(preds)
     for k in range(n - 1):
         dom = rng.choice(mixes)
+        if k >= 4 and k % 2 == 0:
+            # dense instances over a tiny domain: joins succeed, ties and "all values present" situations occur
+            dom = rng.choice([["1", "2"], ["1", "2", "3"], ["0", "1"], (ids[:1] or ["a"]) + ["1", "2"]])
+            facts = []
+            for name, ar in preds:
+                if ar == 0:
+                    if rng.random() < 0.7:
+                        facts.append(f"{name}.")
+                    continue
+                import itertools
+                allt = list(itertools.product(dom, repeat=ar))
+                rng.shuffle(allt)
+                for tup in allt[:rng.choice([1, 2, 3, 4, 6, 8])]:
+                    facts.append(f"{name}({','.join(tup)}).")
+            out.append(" ".join(facts))
+            continue
         facts = []
         for name, ar in preds:
             if ar == 0:
